@@ -876,6 +876,12 @@ func (p *InlineParser) parseEndBracket(state *inlineState, start int) (end int) 
 			Start: state.stack[openDelimIndex].node.span.Start,
 			End:   label.span.End,
 		}
+		// The label may end on a later line: advance the spans we're considering.
+		if i := nodeIndexForPosition(state.unparsed[state.unparsedPos:], label.span.End-1); i >= 0 {
+			state.unparsedPos += i
+		} else {
+			state.unparsedPos = len(state.unparsed)
+		}
 		p.finishLink(state, kind, openDelimIndex)
 		return linkNode.span.End
 	default:
